@@ -366,11 +366,13 @@ def check_message(col, msg, root, target, desc, key, width):
     tree = build_tree(tokens)
     flow = followed_flow(tree)
     flow_specs = [(i, ln) for i, ln in enumerate(flow) if ln.kind == 'Spec']
-    # (3) ancestors in order, as a subsequence of the Spec lines of the followed flow
-    pos = -1
+    # (3) ancestors in order, as a subsequence of the Spec lines of the followed flow.  Truncated lines can match several
+    # specs with a common prefix, so the embedding is searched from the END (if any embedding exists this finds one, and it
+    # places the failing spec as late as possible, which is the most lenient reading for the "nothing unrelated after it" rule)
+    pos = len(flow_specs)
     positions = []
-    for f in anc:
-        nxt = next((j for j, (i, ln) in enumerate(flow_specs) if j > pos and matches(ln.text, f.spec)), None)
+    for f in reversed(anc):
+        nxt = next((j for j in range(pos - 1, -1, -1) if matches(flow_specs[j][1].text, f.spec)), None)
         if nxt is None:
             which = 'failing-spec' if f is failing else 'ancestor'
             return col.violation('C05/%s-missing-from-trace:depth-%d' % (which, min(f.depth, 6)),
@@ -378,6 +380,7 @@ def check_message(col, msg, root, target, desc, key, width):
                                  % (desc, which, short(fmt_full(f.spec), 120), f.depth, [ln.text[:40] for _, ln in flow_specs], msg), wit)
         pos = nxt
         positions.append(nxt)
+    pos = positions[0]          # position of the failing spec
     col.count('ancestors_located', len(anc))
     # nothing unrelated after the failing spec: later followed Spec lines belong to frames nested in the failing frame
     inside = all_frames(failing)
